@@ -135,6 +135,11 @@ class TreeConverter(ast.NodeVisitor):
     return ["Name", node.id]
 
   def visit_Constant(self, node):
+    # Only constants that the documented node table and JSON can represent. Others (bytes,
+    # complex, Ellipsis) are unsupported syntax.
+    # pylint: disable=unidiomatic-typecheck
+    if type(node.value) not in (str, int, float, bool, type(None)):
+      return self.generic_visit(node)
     return ["Const", node.value]
 
   visit_NameConstant = visit_Constant
